@@ -157,6 +157,9 @@ impl Prop for C04 {
                 }
             }
         }
+        for g in crate::huge::huge_cases() {
+            v.push(SpCase { g, sources: 1 });
+        }
         v
     }
     fn strategy(&self, _tier: Tier) -> BoxedStrategy<SpCase> {
@@ -170,6 +173,16 @@ impl Prop for C04 {
         tier.pick(100_000, 1_000_000)
     }
     fn check(&self, case: &SpCase) -> Outcome {
+        if case.g.big_n > 60_000 {
+            // the fixed huge-graph cases (more than 2^16 nodes), sampled queries and linear oracles
+            let mut out = Outcome::new();
+            let ng = case.g.norm();
+            let g = ng.build();
+            crate::huge::distances(&g, &ng, "single_source", &mut out);
+            out.class("huge_graph_66003_nodes");
+            out.nontrivial = true;
+            return out;
+        }
         let mut out = Outcome::new();
         crate::props::c08::poison_shortest_path_state(case.sources as u64, 64);
         let ng = case.g.norm();
